@@ -448,6 +448,11 @@ def configs(tier, seed):
                                        max_states=4000 if kind.endswith("bo-rand") else cap))
                         if sd == 0:
                             out.append(_mk(kind, space, p, seed=sd, W=1, F=2, tv=1, max_states=cap))
+    # a finite space of 200 configurations driven to exhaustion along the single history of one worker (no branching):
+    # rejection sampling must neither repeat itself nor give up before the space is used up
+    for p in ("none", "partial"):
+        for sd in (0, 1) if q else (0, 1, 2, 3, 4):
+            out.append(_mk("fifo-random", "fin200", p, seed=sd, W=1, F=0, max_states=None))
     # training script ends before max_t: trials complete after a CONTINUE decision (on_trial_complete path)
     for kind in ("hb-stop-random", "hb-stop-bo-rand"):
         for space in ("fin6", "fin4"):
